@@ -819,3 +819,92 @@ func runC07_13(c *core.Ctx) {
 		}
 	}
 }
+
+func init() {
+	register(&core.Rule{ID: "C07.14", Prop: "C07", MinSites: 1,
+		Desc: "a half-built poller is torn down: in OpenPoller, once the epoll/kqueue descriptor exists, every return on the error edge of a later step (eventfd, registering the wake-up descriptor, kevent) first calls poller.Close() or closes the descriptor",
+		Run: runC07_14})
+}
+
+func runC07_14(c *core.Ctx) {
+	f := getFn(c, "pkg/netpoll", "OpenPoller")
+	closeFn := c.P.Func("pkg/netpoll", "Poller.Close")
+	fdF := c.P.Field("pkg/netpoll", "Poller", "fd")
+	if f == nil || !c.Need("Poller.Close", closeFn) || !c.Need("Poller.fd", fdF) {
+		return
+	}
+	const (
+		sNone = iota
+		sFirst
+		sHeld
+		sOwes
+	)
+	var errObj types.Object
+	if sig, ok := f.Obj.Type().(*types.Signature); ok {
+		for i := 0; i < sig.Results().Len(); i++ {
+			if isErrorType(sig.Results().At(i).Type()) {
+				errObj = sig.Results().At(i)
+			}
+		}
+	}
+	isErr := func(e ast.Expr) bool {
+		o := flow.ObjOf(f.Info, e)
+		return o != nil && isErrorType(o.Type()) && (errObj == nil || o == errObj || true)
+	}
+	au := &flow.Auto{Start: sNone}
+	au.Node = func(b *flow.Block, i int, n ast.Node, st int) int {
+		if as, ok := n.(*ast.AssignStmt); ok && st == sNone {
+			for _, l := range as.Lhs {
+				if flow.FieldOf(f.Info, l) == fdF {
+					if _, isCall := ast.Unparen(as.Rhs[0]).(*ast.CallExpr); isCall {
+						return sFirst
+					}
+				}
+			}
+		}
+		for _, call := range flow.Calls(n) {
+			if flow.IsCall(f.Info, call, closeFn) {
+				return sNone
+			}
+			if flow.IsPkgFunc(f.Info, call, unixPkg, "Close") && len(call.Args) == 1 && flow.FieldOf(f.Info, call.Args[0]) == fdF {
+				return sNone
+			}
+		}
+		return st
+	}
+	au.Edge = func(e *flow.Edge, st int) int {
+		if e.Cond == nil || e.Tag != nil {
+			return st
+		}
+		x, y, op, ok := flow.Cmp(e.Cond)
+		if !ok || !flow.IsNil(f.Info, y) || !isErr(x) {
+			return st
+		}
+		failed := (op == token.NEQ) == e.Sense
+		switch st {
+		case sFirst:
+			if failed {
+				return sNone
+			}
+			return sHeld
+		case sHeld:
+			if failed {
+				return sOwes
+			}
+		}
+		return st
+	}
+	sol := f.Graph().Run(au)
+	k, bad := 0, token.NoPos
+	sol.AtExit(func(b *flow.Block, _ uint64) {
+		k++
+		if sol.Out(b)&(1<<sOwes) != 0 && bad == token.NoPos {
+			bad = b.Return.Pos()
+		}
+	})
+	c.Check(bad == token.NoPos, f.Name, "error returns after the poller descriptor exists close it", f.Decl.Pos(), itoa(k)+" returns inspected",
+		"OpenPoller can return an error after the epoll/kqueue descriptor was created without calling poller.Close(): every failed start-up attempt leaks that descriptor (and the wake-up descriptor)")
+	if bad != token.NoPos {
+		_ = bad
+	}
+}
